@@ -55,6 +55,11 @@ def make_inputs(contract, cfgname, D, P, shape, rng, cell0=None, dtype=float):
             col[0] = contract.sample_x0(a, rng)
             if dtype is complex: col = [complex(c, rnd(rng) * (0.5 if k else 0.1)) for k, c in enumerate(col)]
             for d in range(D): x[(d,) + pos] = col[d]
+        # structured sparsity: a whole Taylor order vanishing in every direction and element (gaps), or only low orders present
+        u = rng.random()
+        if D >= 3 and u < 0.2: x[rng.randrange(1, D - 1)] = 0
+        elif D >= 3 and u < 0.3: x[2:] = 0
+        elif D >= 2 and u < 0.35: x[1:] = 0
         if cell0 and a in cell0:
             pos0 = (0,) * (x.ndim - 1)
             for d in range(D): x[(d,) + pos0] = cell0[a][d]
@@ -99,7 +104,8 @@ def close(a, b, scale=1.0, tol=1e-8):
             return abs(complex(a) - complex(b)) <= tol * max(1.0, abs(complex(b)), scale)
         a = float(a); b = float(b)
     except (TypeError, ValueError): return False
-    if math.isnan(a) or math.isnan(b) or math.isinf(a) or math.isinf(b): return None       # outside the domain: not a verdict
+    if math.isnan(b) or math.isinf(b): return None       # the oracle itself is outside the domain: not a verdict
+    if math.isnan(a) or math.isinf(a): return False      # nan/inf where a finite coefficient is expected
     return abs(a - b) <= tol * max(1.0, abs(b), scale)
 
 
